@@ -26,11 +26,12 @@ Section Solve.
   Qed.
 
   (* C10 + C03: enumerate on the lowered model yields exactly the assignments of the declared
-     domains at which every posted tree evaluates to true (projected on the user's variables) *)
+     domains at which every posted tree evaluates to true (projected on the user's variables).
+     The in-range condition of lower_denotes (doms_nonempty s) follows from wf_store s. *)
   Theorem fluent_model_solutions : forall decls posts s ps pick sols best,
     forallb is_decl decls = true ->
     Forall (post_wf (length decls)) posts ->
-    (forall c, In (SNew c) posts -> kf_or_not (fold_cons c) = false /\ kf_aux_bounds c (map decl_dom decls) = false) ->
+    (forall c, In (SNew c) posts -> kf_or_not (fold_cons c) = false) ->
     lower (build (decls ++ posts)) = LOk s ps ->
     Forall good (map den ps) -> scoped (map den ps) (length s) -> wf_store s ->
     enumerate pick (map den ps) s = SOk sols best ->
@@ -40,14 +41,15 @@ Section Solve.
     (forall a, means a -> exists t, In t sols /\ agree (length decls) a (asg_of t)).
   Proof.
     intros decls posts s ps pick sols best Hd Hw Hk Hl Hg Hsc Hwf He means.
+    pose proof (wf_store_nonempty s Hwf) as Hne.
     destruct (EngineProofs.enumerate_exact BasicProofs.mk_leq_good BasicProofs.mk_gt_good BasicProofs.mk_lt_good
                 pick (map den ps) s sols best Hg Hsc Hwf He) as [Nd [Snd Cmp]].
     split; [exact Nd|]. split.
     - intros t Ht. destruct (Snd t Ht) as [Hf [_ Hs]]. split; [exact Hf|].
       apply sol_allsat in Hs. destruct Hs as [Hi Hs].
-      apply (lower_denotes decls posts Hd Hw Hk s ps Hl (asg_of t)).
+      apply (lower_denotes decls posts Hd Hw Hk s ps Hl Hne (asg_of t)).
       exists (asg_of t). split; [apply agree_refl|auto].
-    - intros a Ha. apply (lower_denotes decls posts Hd Hw Hk s ps Hl a) in Ha.
+    - intros a Ha. apply (lower_denotes decls posts Hd Hw Hk s ps Hl Hne a) in Ha.
       destruct Ha as [a' [A [Hi Hs]]].
       destruct (Cmp a' (proj2 (sol_allsat ps s a') (conj Hi Hs))) as [t [Ht Hit]].
       exists t. split; [exact Ht|]. destruct (Snd t Ht) as [Hf [[Hlen _] _]].
